@@ -781,6 +781,9 @@ def m_mem_replace(ctx):
     dst = ctx.eng.deref(dst_ref)
     old = copy_node(dst)
     assign_node(dst, new)
+    # a store into memory the caller can see: part of the path's write log (like a MIR assignment through a reference)
+    ctx.st.extra.setdefault("writes", []).append((short_name(ctx.frame.fn.name), "mem::replace(%s)" % (dst_ref.ty or "&mut _")[:40],
+                                                  len(ctx.st.trace), len(ctx.st.frames)))
     return ctx.ret(old)
 
 
@@ -790,6 +793,7 @@ def m_mem_swap(ctx):
     ca, cb = copy_node(a), copy_node(b)
     assign_node(a, cb)
     assign_node(b, ca)
+    ctx.st.extra.setdefault("writes", []).append((short_name(ctx.frame.fn.name), "mem::swap", len(ctx.st.trace), len(ctx.st.frames)))
     ctx.st.trace.append(Event(ctx.callee, "mem::swap", [copy_node(x) for x in ctx.args], None, ctx.site,
                               len(ctx.st.frames), "note"))
     return ctx.ret(mk_unit())
